@@ -6,6 +6,7 @@ import CimbaModel.HashHeap.Orders
 import CimbaModel.HashHeap.GuardOrder
 import CimbaModel.HashHeap.Hash
 import CimbaModel.HashHeap.Inv
+import CimbaModel.HashHeap.RefineRun
 
 namespace CimbaModel.Props.C02
 open CimbaModel CimbaModel.HashHeap CimbaModel.Generated CimbaModel.KPQ
@@ -29,5 +30,182 @@ theorem hash_key_in_range (s : HH) (k : Nat) (h : s.exp < 63) : hash_key s k < 2
 
 theorem item_match_is_model (t : HTag) (p : Item) : item_match t p.a p.b p.c p.d = itemMatch t p :=
   item_match_eq t p
+
+/-! ### none of the library's ordering functions looks at the hash back-pointer of a tag
+    (needed for capacity doublings, which re-home every entry in the hash map) -/
+
+theorem event_order_ignores_hidx : IgnoresHidx heap_order_check := inferInstance
+theorem guard_order_ignores_hidx : IgnoresHidx guard_queue_check := inferInstance
+theorem holder_order_ignores_hidx : IgnoresHidx holder_queue_check := inferInstance
+theorem pq_order_ignores_hidx : IgnoresHidx compare_func := inferInstance
+theorem default_order_ignores_hidx : IgnoresHidx default_order_check := inferInstance
+
+/-! ### refinement: every operation of the concrete hashheap, on a well-formed state, never faults, keeps the
+    state well-formed and acts on the abstraction `abs s : KPQ` as the keyed-priority-queue specification says.
+
+    `lt` is an arbitrary strict weak order.  Where a capacity doubling can happen (`enqueue`) and where the
+    statement compares back-pointer-free copies of the tags (`IsMin … (abs s)`), `lt` must not look at the hash
+    back-pointer (`IgnoresHidx lt`; all five ordering functions of the library satisfy it, see above).  This
+    hypothesis is necessary: `grow` re-homes every entry, so an order that inspected `hash_index` would see a
+    different heap afterwards. -/
+
+section refinement
+variable {lt : Order}
+
+theorem init_WF (e : Nat) (h1 : 1 ≤ e) (h31 : e ≤ 31) : ∃ s, init e = .ok s ∧ WF lt s ∧ abs s = [] := by
+  obtain ⟨s, h, hwf, habs, _⟩ := init_spec (lt := lt) e h1 h31
+  exact ⟨s, h, hwf, habs⟩
+
+/-- live keys are pairwise distinct -/
+theorem keys_nodup {s : HH} (h : WF lt s) : (keys (abs s)).Nodup := h.keys_nodup
+
+/-- live keys are non-zero 64-bit values -/
+theorem keys_valid {s : HH} (h : WF lt s) {k : Nat} (hk : k ∈ keys (abs s)) : k ≠ 0 ∧ k < 2 ^ 64 := h.keys_ne_zero hk
+
+/-- the count is the number of live keys -/
+theorem count_eq (s : HH) : (abs s).length = s.count := abs_length s
+
+theorem enqueue_refines [StrictWeak lt] [IgnoresHidx lt] {s : HH} (h : WF lt s) (it : Item) (k : Nat) (d i : Int) :
+    let k' := if k = 0 then s.counter + 1 else k
+    k' ≠ 0 → k' < 2 ^ 64 → k' ∉ keys (abs s) → (s.count < 2 ^ s.exp ∨ s.exp < 31) →
+    ∃ s', enqueue lt s it k d i = .ok (s', k') ∧ WF lt s' ∧
+      (abs s').Perm (KPQ.insert (abs s) ⟨k', 0, it, d, i⟩) ∧ s'.counter = s.counter + 1 := by
+  intro k' h0 h64 hf hroom
+  obtain ⟨s', hrun, hwf, hperm, hct, _⟩ := enqueue_abs h it k d i h0 h64 hf hroom
+  exact ⟨s', hrun, hwf, hperm, hct⟩
+
+/-- without a capacity doubling no assumption on the order beyond strict weak is needed -/
+theorem enqueue_refines_no_growth [StrictWeak lt] {s : HH} (h : WF lt s) (it : Item) (k : Nat) (d i : Int) :
+    let k' := if k = 0 then s.counter + 1 else k
+    k' ≠ 0 → k' < 2 ^ 64 → k' ∉ keys (abs s) → s.count < 2 ^ s.exp →
+    ∃ s', enqueue lt s it k d i = .ok (s', k') ∧ WF lt s' ∧
+      (abs s').Perm (KPQ.insert (abs s) ⟨k', 0, it, d, i⟩) ∧ s'.counter = s.counter + 1 ∧ s'.exp = s.exp := by
+  intro k' h0 h64 hf hroom
+  have hg := growOK_of_room h hroom
+  obtain ⟨s', hrun, hwf, hperm, hct, _, hexp, hc⟩ := enqueue_abs_of_grow h it k d i h0 h64 hf hg
+  refine ⟨s', hrun, hwf, hperm, hct, ?_⟩
+  -- the exponent is unchanged: read it off the run
+  have hne : s.count ≠ 2 ^ s.exp := by omega
+  rw [enqueue_eq, if_neg (by have := h.countLe; omega), if_neg hne] at hrun
+  obtain ⟨p, s2, hrun2, _, _, he2, _⟩ := enqueueCore_spec h hroom it k d i k' rfl h0 h64
+    (fun j hj he => hf ((mem_keys_abs s k').2 ⟨j, hj, he⟩))
+  have : (Except.ok (s2, k') : Except Fault (HH × Nat)) = .ok (s', k') := by
+    rw [← hrun2]; exact hrun
+  injection this with this
+  injection this with this
+  subst this
+  exact he2
+
+theorem dequeue_refines [StrictWeak lt] [IgnoresHidx lt] {s : HH} (h : WF lt s) (hpos : 0 < s.count) :
+    ∃ s' e, dequeue lt s = .ok (s', some e) ∧ WF lt s' ∧ IsMin lt (abs s) (norm e) ∧
+      (abs s).Perm (norm e :: abs s') := by
+  obtain ⟨s', hrun, hwf, hperm, _⟩ := dequeue_abs h hpos
+  exact ⟨s', s.tag 1, hrun, hwf, root_isMin_abs h hpos, hperm⟩
+
+/-- the same for an arbitrary strict weak order, minimality stated on the tags as stored -/
+theorem dequeue_refines_raw [StrictWeak lt] {s : HH} (h : WF lt s) (hpos : 0 < s.count) :
+    ∃ s' e, dequeue lt s = .ok (s', some e) ∧ WF lt s' ∧ IsMin lt (liveTags s) e ∧
+      (abs s).Perm (norm e :: abs s') := by
+  obtain ⟨s', hrun, hwf, hperm, _⟩ := dequeue_abs h hpos
+  exact ⟨s', s.tag 1, hrun, hwf, root_isMin h hpos, hperm⟩
+
+theorem dequeue_empty (s : HH) (h0 : s.count = 0) : dequeue lt s = .ok (s, none) := by
+  simp [dequeue, h0]
+
+theorem peek_correct [StrictWeak lt] [IgnoresHidx lt] {s : HH} (h : WF lt s) (hpos : 0 < s.count) :
+    ∃ t, peek s = .ok (some t) ∧ IsMin lt (abs s) (norm t) :=
+  ⟨s.tag 1, peek_spec h hpos, root_isMin_abs h hpos⟩
+
+theorem peek_correct_raw [StrictWeak lt] {s : HH} (h : WF lt s) (hpos : 0 < s.count) :
+    ∃ t, peek s = .ok (some t) ∧ IsMin lt (liveTags s) t :=
+  ⟨s.tag 1, peek_spec h hpos, root_isMin h hpos⟩
+
+theorem peek_empty (s : HH) (h0 : s.count = 0) : peek s = .ok none := by
+  simp [peek, h0]
+
+theorem remove_refines [StrictWeak lt] {s : HH} (h : WF lt s) (k : Nat) (hk0 : k ≠ 0) :
+    ∃ s', remove lt s k = .ok (s', decide (k ∈ keys (abs s))) ∧ WF lt s' ∧
+      (abs s').Perm (KPQ.remove (abs s) k) := by
+  obtain ⟨s', hrun, hwf, hperm, _⟩ := remove_abs h k hk0
+  exact ⟨s', hrun, hwf, hperm⟩
+
+theorem reprio_refines [StrictWeak lt] {s : HH} (h : WF lt s) {k : Nat} (hk : k ∈ keys (abs s)) (d i : Int) :
+    ∃ s', reprioritize lt s k d i = .ok s' ∧ WF lt s' ∧ (abs s').Perm (KPQ.reprio (abs s) k d i) := by
+  obtain ⟨s', hrun, hwf, hperm, _⟩ := reprio_abs h hk d i
+  exact ⟨s', hrun, hwf, hperm⟩
+
+/-- a payload (and the sort keys) stay attached to their key however entries move inside the structure -/
+theorem lookup_correct {s : HH} (h : WF lt s) {k : Nat} (hk : k ∈ keys (abs s)) :
+    ∃ t, lookup s k = .ok t ∧ KPQ.lookup (abs s) k = some (norm t) := lookup_spec h hk
+
+theorem isEnqueued_correct {s : HH} (h : WF lt s) (k : Nat) (hk0 : k ≠ 0) :
+    isEnqueued s k = .ok (decide (k ∈ keys (abs s))) := isEnqueued_spec h k hk0
+
+theorem patternCount_correct (s : HH) (p : Item) : patternCount s p = (matching (abs s) p).length :=
+  patternCount_spec s p
+
+/-- `pattern_find` returns 0 exactly when nothing matches, otherwise the key of a matching entry -/
+theorem patternFind_correct {s : HH} (h : WF lt s) (p : Item) :
+    (patternFind s p = 0 ↔ matching (abs s) p = []) ∧
+    (patternFind s p ≠ 0 → ∃ t, t ∈ matching (abs s) p ∧ t.key = patternFind s p) := patternFind_spec h p
+
+theorem patternCancel_refines [StrictWeak lt] {s : HH} (h : WF lt s) (p : Item) :
+    ∃ s', patternCancel lt s p = .ok (s', (matching (abs s) p).length) ∧ WF lt s' ∧
+      (abs s').Perm (removeMatching (abs s) p) := by
+  obtain ⟨s', hrun, hwf, hperm, _⟩ := patternCancel_abs h p
+  exact ⟨s', hrun, hwf, hperm⟩
+
+theorem clear_refines {s : HH} (h : WF lt s) : WF lt (clear s) ∧ abs (clear s) = [] ∧ (clear s).counter = s.counter :=
+  ⟨(clear_spec h).1, (clear_spec h).2.1, (clear_spec h).2.2.1⟩
+
+theorem reset_refines {s : HH} (h : WF lt s) :
+    ∃ s', reset s = .ok s' ∧ WF lt s' ∧ abs s' = [] ∧ s'.counter = s.counter := by
+  obtain ⟨s', hrun, hwf, habs, hct, _⟩ := reset_spec h
+  exact ⟨s', hrun, hwf, habs, hct⟩
+
+/-- any operation sequence whose operations meet their documented preconditions keeps the state well-formed
+    and never faults (no out-of-bounds access, no library abort, `hash_find_slot` terminates), across any
+    number of capacity doublings -/
+theorem run_preserves_WF [StrictWeak lt] [IgnoresHidx lt] {s : HH} (h : WF lt s) (ops : List Op)
+    (hpre : PreAll lt s ops) : ∃ s', run lt s ops = .ok s' ∧ WF lt s' := run_WF ops h hpre
+
+theorem reachable_WF [StrictWeak lt] [IgnoresHidx lt] (e : Nat) (h1 : 1 ≤ e) (h31 : e ≤ 31) (ops : List Op) :
+    ∃ s0, init e = .ok s0 ∧ (PreAll lt s0 ops → ∃ s', run lt s0 ops = .ok s' ∧ WF lt s') := by
+  obtain ⟨s0, hinit, hwf, _⟩ := init_spec (lt := lt) e h1 h31
+  exact ⟨s0, hinit, fun hpre => run_WF ops hwf hpre⟩
+
+end refinement
+
+/-! ### the hypotheses are satisfiable -/
+
+/-- a well-formed non-empty state exists (built by the theorems themselves), so the hypotheses `WF lt s`,
+    `0 < s.count`, `k ∈ keys (abs s)` of the theorems above are satisfiable -/
+example : ∃ s : HH, WF default_order_check s ∧ 0 < s.count ∧ 5 ∈ keys (abs s) := by
+  obtain ⟨s0, _, hwf0, habs0, _, hexp, _⟩ := init_spec (lt := default_order_check) 1 (by decide) (by decide)
+  have hc0 : s0.count = 0 := by rw [← abs_length, habs0]; rfl
+  obtain ⟨s1, _, hwf1, hperm, _⟩ := enqueue_refines hwf0 {} 5 0 0 (by simp) (by simp)
+    (by rw [habs0]; simp [keys]) (Or.inl (by rw [hc0]; exact two_pow_pos _))
+  refine ⟨s1, hwf1, ?_, ?_⟩
+  · rw [← abs_length, hperm.length_eq]; simp [KPQ.insert]
+  · have : (⟨5, 0, {}, 0, 0⟩ : HTag) ∈ abs s1 := hperm.mem_iff.2 (by simp [KPQ.insert, norm])
+    exact List.mem_map.2 ⟨_, this, rfl⟩
+
+/-- the precondition of a whole run is satisfiable: enqueue (auto key 1), reprioritize it, remove it, dequeue
+    on a fresh heap -/
+example : ∃ s0, init 1 = .ok s0 ∧
+    PreAll default_order_check s0 [.enqueue {} 0 3 0, .reprio 1 5 0, .remove 1, .dequeue] := by
+  obtain ⟨s0, hinit, hwf0, habs0, hct0, hexp, _⟩ := init_spec (lt := default_order_check) 1 (by decide) (by decide)
+  have hc0 : s0.count = 0 := by rw [← abs_length, habs0]; rfl
+  have hpre : OpPre s0 (.enqueue {} 0 3 0) := by
+    simp only [OpPre, hct0, habs0]
+    exact ⟨by decide, by decide, by simp [keys], Or.inl (by rw [hc0]; exact two_pow_pos _)⟩
+  refine ⟨s0, hinit, hpre, ?_⟩
+  intro s1 h1
+  obtain ⟨s', hrun, _, hperm, _⟩ := enqueue_refines hwf0 {} 0 3 0 hpre.1 hpre.2.1 hpre.2.2.1 hpre.2.2.2
+  have hs1 : s' = s1 := by simpa [step, hrun] using h1
+  subst hs1
+  refine ⟨?_, fun _ _ => ⟨(by decide : (1 : Nat) ≠ 0), fun _ _ => ⟨trivial, fun _ _ => trivial⟩⟩⟩
+  have : (⟨1, 0, {}, 3, 0⟩ : HTag) ∈ abs s' := hperm.mem_iff.2 (by simp [KPQ.insert, norm, hct0])
+  exact List.mem_map.2 ⟨_, this, rfl⟩
 
 end CimbaModel.Props.C02
